@@ -93,6 +93,7 @@ Proof.
   { unfold tucker in Hrun. set (ranks := validate_tucker_rank (ndim X) rank) in *.
     destruct (Nat.eqb (length ranks) (ndim X)) eqn:El; [|discriminate].
     cbn [negb] in Hrun. apply Nat.eqb_eq in El.
+    destruct (ndim X <=? 1); [discriminate|].
     destruct (hosvd_factors Rops svd X ranks 0 0) as [fs0|] eqn:E0; [|discriminate]. cbn [rbind] in Hrun.
     destruct (hooi_iter Rops svd X ranks n_iter (ndim X) fs0) as [fs1|] eqn:E1; [|discriminate]. cbn [rbind] in Hrun.
     destruct (multi_mode_dot Rops X fs1 0 None true) as [core1|]; [|discriminate]. cbn [rbind] in Hrun.
